@@ -210,4 +210,8 @@ class Parameter(AnnotatedValue):
 
 def make_item_name(array, index):
     """Create a name from an indexable object and its index."""
+    if isinstance(index, AnnotatedValue):
+        # Name the item the way it is written in Jaqal, e.g. q[i], whether
+        # the index is a let constant or a macro parameter.
+        index = index.name
     return f"{array.name}[{index}]"
